@@ -279,6 +279,8 @@ func oracleNodeFull(self string, rs []orule, p packet, listening, hops bool) []o
 	}
 	if p.ToNode == self {
 		switch {
+		case p.ToService == "ping" && p.FromService == "ping":
+			return nil // a reply comes from the ping service; it is not answered
 		case p.ToService == "ping":
 			return oracleNode(self, rs, packet{self, "ping", p.FromNode, p.FromService})
 		case p.ToService == "unreach" || listening:
@@ -313,6 +315,9 @@ func (h *harness) nodeCase(gs []grule, fns []netceptor.FirewallRuleFunc, want []
 		p.ToNode, p.ToService = self, []string{"ping", "unreach"}[r.Intn(2)]
 		if p.FromNode == self {
 			p.FromNode = "b"
+		}
+		if p.ToService == "ping" && r.Chance(25) {
+			p.FromService = "ping" // a ping reply: must not be answered
 		}
 	case x < 28:
 		p.FromNode = self
@@ -482,6 +487,7 @@ func (h *harness) historyCases() {
 		wa, _ := oracleRules(ga)
 		wb, _ := oracleRules(gb)
 		stop, stopped := make(chan struct{}), make(chan struct{})
+		Must(w.n.AddFirewallRules(fa, true)) // from here on the rules in force are A or B
 		go func() {
 			defer close(stopped)
 			for {
